@@ -543,7 +543,15 @@ class SGen:
     def proc_call(self, name, args, n):
         # a callee kept as a PROCEDURE CALL (coq/WholeProc.v): f(out, in, ks) with an output and an input of bs bytes and the
         # whole key-schedule object as its second data argument; its meaning is supplied by the call interpretation
-        fno, bs, kn = self.procs[name]
+        spec = self.procs[name]
+        fno, bs, kn = spec[:3]
+        if len(spec) > 3 and spec[3]:
+            # f(out, in, tweak, ks): a second data argument of the same size as the input
+            o = self.ptr(args[0]); i = self.ptr(args[1]); tw = self.ptr(args[2]); kk = self.ptr(args[3])
+            if o[0] is None or i[0] is None or tw[0] is None or kk[0] is None: self.bad(n, "procedure call with a null pointer")
+            self.emit("SDStore %d (%s) %d (DCall %d (DConcat [DLoad %d (%s) %d; DLoad %d (%s) %d; DLoad %d (%s) %d]))"
+                      % (o[0], o[1], bs, fno, i[0], i[1], bs, tw[0], tw[1], bs, kk[0], kk[1], kn))
+            return None
         o = self.ptr(args[0]); i = self.ptr(args[1]); kk = self.ptr(args[2])
         if o[0] is None or i[0] is None or kk[0] is None: self.bad(n, "procedure call with a null pointer")
         self.emit("SDStore %d (%s) %d (DCall %d (DConcat [DLoad %d (%s) %d; DLoad %d (%s) %d]))"
